@@ -35,29 +35,63 @@ fn truthy(v: &Value) -> bool {
         _ => false,
     }
 }
-fn is_host_err(r: &Result<Value, ExecutionError>, k: usize) -> bool {
-    matches!(r, Err(ExecutionError::FunctionError { function, .. }) if *function == format!("f{}", k))
-}
 
 fn node_replay() {
     let op: u8 = any();
     let (k0, k1, k2): (u8, u8, u8) = (any(), any(), any());
     let (p0, p1, p2): (i64, i64, i64) = (any(), any(), any());
     let (b0, b1, b2): (bool, bool, bool) = (any(), any(), any());
+    // syntactic shape of each operand: 0 call to a logging host function, 1 identifier,
+    // 2 field selection on a map variable, 3 literal
+    let shapes: [u8; 3] = [any(), any(), any()];
     // `@not_strictly_false` (index 15) has no source syntax of its own; it is not replayable here
     crate::sym::assume((op as usize) < OPS.len() && op != 15 && k0 < 5 && k1 < 5 && k2 < 5);
-    let rs = [operand(k0, p0, b0), operand(k1, p1, b1), operand(k2, p2, b2)];
+    crate::sym::assume(shapes[0] < 4 && shapes[1] < 4 && shapes[2] < 4);
+    let lit = |p: i64| p.rem_euclid(1000);
+    let ps = [p0, p1, p2];
+    let bs = [b0, b1, b2];
+    let ks = [k0, k1, k2];
+    let mut rs = [operand(k0, p0, b0), operand(k1, p1, b1), operand(k2, p2, b2)];
+    for k in 0..3 {
+        if shapes[k] == 3 {
+            // literals can only spell small numbers
+            rs[k] = operand(ks[k], lit(ps[k]), bs[k]);
+        }
+    }
     let name = OPS[op as usize];
+    let mut ctx = Context::default();
+    let operand_src = |k: usize| -> String {
+        match shapes[k] {
+            0 => format!("f{}()", k),
+            1 => format!("v{}", k),
+            2 => format!("w{}.field", k),
+            _ => match &rs[k] {
+                Res::Err => "(1/0)".to_string(),
+                Res::Val(Value::Bool(b)) => format!("{}", b),
+                Res::Val(Value::Int(i)) => format!("{}", i),
+                Res::Val(Value::UInt(u)) => format!("{}u", u),
+                _ => "null".to_string(),
+            },
+        }
+    };
+    for k in 0..3usize {
+        if let Res::Val(v) = &rs[k] {
+            ctx.add_variable_from_value(format!("v{}", k), v.clone());
+            let mut m = std::collections::HashMap::new();
+            m.insert("field".to_string(), v.clone());
+            ctx.add_variable_from_value(format!("w{}", k), m);
+        } else {
+            ctx.add_variable_from_value(format!("w{}", k), std::collections::HashMap::<String, Value>::new());
+        }
+    }
     let src = match name {
-        "!" => "!f0()".to_string(),
-        "neg" => "-f0()".to_string(),
-        // the parser expands no user-visible syntax to @not_strictly_false outside macros: exercised through `all`
-        "@nsf" => "[1].all(x, f0())".to_string(),
-        "?:" => "f0() ? f1() : f2()".to_string(),
-        o => format!("f0() {} f1()", o),
+        "!" => format!("!{}", operand_src(0)),
+        "neg" => format!("-{}", operand_src(0)),
+        "@nsf" => "true".to_string(),
+        "?:" => format!("{} ? {} : {}", operand_src(0), operand_src(1), operand_src(2)),
+        o => format!("{} {} {}", operand_src(0), o, operand_src(1)),
     };
     let log: Arc<Mutex<Vec<usize>>> = Arc::new(Mutex::new(Vec::new()));
-    let mut ctx = Context::default();
     for k in 0..3usize {
         let (l, r) = (log.clone(), rs[k].clone());
         let fname = format!("f{}", k);
@@ -73,6 +107,15 @@ fn node_replay() {
     let program = Program::compile(&src).expect("node source compiles");
     let got = program.execute(&ctx);
     let calls = log.lock().unwrap().clone();
+    // the error an operand of a given shape produces
+    let is_host_err = |r: &Result<Value, ExecutionError>, k: usize| -> bool {
+        match shapes[k] {
+            0 => matches!(r, Err(ExecutionError::FunctionError { function, .. }) if *function == format!("f{}", k)),
+            1 => matches!(r, Err(ExecutionError::UndeclaredReference(n)) if n.as_str() == format!("v{}", k)),
+            2 => matches!(r, Err(ExecutionError::NoSuchKey(n)) if n.as_str() == "field"),
+            _ => matches!(r, Err(ExecutionError::DivisionByZero(_))),
+        }
+    };
 
     // ---- reference semantics of one node
     let v = |k: usize| match &rs[k] {
@@ -153,6 +196,8 @@ fn node_replay() {
             }
         }
     };
+    // only call-shaped operands are observable in the log
+    let want_calls: Vec<usize> = want_calls.into_iter().filter(|k| shapes[*k] == 0).collect();
     check!(calls == want_calls, "node: operands evaluated exactly as specified (at most once, left to right, skipped operands never)");
     check!(ok, "node: result is the one the reference semantics of the operator prescribes");
 }
@@ -265,6 +310,10 @@ pub fn c11_chain() {
     crate::sym::assume(levels >= 1 && levels <= 3 && masks[0] < 8 && masks[1] < 8 && masks[2] < 8);
     let names = ["a", "b", "c"];
     let mut root = Context::default();
+    // a function named like a variable: functions live in the root registry and stay callable from
+    // every scope whatever variables are bound there
+    root.add_function("a", || 42i64);
+    let call_a = Program::compile("a()").expect("compiles");
     for (k, n) in names.iter().enumerate() {
         if (masks[0] >> k) & 1 == 1 {
             root.add_variable_from_value(*n, Value::Int(k as i64));
@@ -280,6 +329,7 @@ pub fn c11_chain() {
         None
     };
     let look = |ctx: &Context, upto: usize| {
+        check!(call_a.execute(ctx) == Ok(Value::Int(42)), "a function stays callable from every scope, whatever variables share its name");
         for n in names {
             match (ctx.get_variable(n), expect(n, upto)) {
                 (Ok(v), Some(w)) => check!(v == w, "lookup returns the innermost binding"),
@@ -417,6 +467,99 @@ pub fn c11_fold() {
     }
     check!(ctx.get_variable("x") == Ok(Value::Int(-1)) && ctx.get_variable("@result").is_err(), "comprehension: the outer scope is unchanged afterwards");
 }
+/// Extractor-level replay: built-ins whose parameters are `This<..>` / `Arguments`, applied to
+/// logging host functions; every argument is evaluated exactly once, the first error aborts.
+pub fn c20_extractor_eval() {
+    let code: u8 = any();
+    let bad: u8 = any(); // index of the failing argument, 3 = none
+    crate::sym::assume(code <= 2 && bad <= 3);
+    let log: Arc<Mutex<Vec<usize>>> = Arc::new(Mutex::new(Vec::new()));
+    let mut ctx = Context::default();
+    for k in 0..3usize {
+        let l = log.clone();
+        ctx.add_function(&format!("f{}", k), move || -> Result<Value, ExecutionError> {
+            l.lock().unwrap().push(k);
+            if k == bad as usize {
+                Err(ExecutionError::function_error(&format!("f{}", k), "configured error"))
+            } else {
+                Ok(Value::List(Arc::new(vec![Value::Int(k as i64)])))
+            }
+        });
+    }
+    let (src, n) = match code {
+        0 => ("size(f0())", 1),    // This<Value> without receiver: consumes the first argument
+        1 => ("f0().size()", 1),   // This<Value> with receiver
+        _ => ("max(f0(), f1(), f2())", 3), // Arguments: all, in order
+    };
+    let got = Program::compile(src).expect("source compiles").execute(&ctx);
+    let calls = log.lock().unwrap().clone();
+    let upto = if (bad as usize) < n { bad as usize + 1 } else { n };
+    let want: Vec<usize> = (0..upto).collect();
+    check!(calls == want, "extractors: every argument evaluated exactly once, in order, the first error aborts");
+    if (bad as usize) < n {
+        check!(got.is_err(), "extractors: a failing argument makes the call fail");
+    }
+}
+/// Parameter conversions: a host function with one parameter of a given type, called with one
+/// value of a given kind: invoked with that value iff the kinds fit (null fits every Option<T>),
+/// otherwise an execution error - never an invocation with different data.
+pub fn c20_conversion() {
+    let (target, kind): (u8, u8) = (any(), any());
+    crate::sym::assume(target <= 6 && kind <= 5);
+    let seen: Arc<Mutex<Vec<String>>> = Arc::new(Mutex::new(Vec::new()));
+    let mut ctx = Context::default();
+    macro_rules! reg {
+        ($t:ty) => {{
+            let s = seen.clone();
+            ctx.add_function("h", move |v: $t| -> i64 {
+                s.lock().unwrap().push(format!("{:?}", v));
+                1
+            });
+        }};
+    }
+    // Option<T> parameters are only available through the `This` extractor
+    macro_rules! reg_opt {
+        ($t:ty) => {{
+            let s = seen.clone();
+            ctx.add_function("h", move |cel_interpreter::extractors::This(v): cel_interpreter::extractors::This<Option<$t>>| -> i64 {
+                s.lock().unwrap().push(format!("{:?}", v));
+                1
+            });
+        }};
+    }
+    match target {
+        0 => reg!(i64),
+        1 => reg!(u64),
+        2 => reg!(bool),
+        3 => reg!(f64),
+        4 => reg_opt!(i64),
+        5 => reg_opt!(u64),
+        _ => reg_opt!(bool),
+    }
+    let (val, shown_plain, shown_opt) = match kind {
+        0 => (Value::Int(5), "5", "Some(5)"),
+        1 => (Value::UInt(5), "5", "Some(5)"),
+        2 => (Value::Bool(true), "true", "Some(true)"),
+        3 => (Value::Float(2.5), "2.5", "Some(2.5)"),
+        4 => (Value::Null, "", "None"),
+        _ => (Value::String(Arc::new("5".to_string())), "", ""),
+    };
+    ctx.add_variable_from_value("x", val);
+    let got = Program::compile("h(x)").expect("compiles").execute(&ctx);
+    let calls = seen.lock().unwrap().clone();
+    let fits_plain = (target == 0 && kind == 0) || (target == 1 && kind == 1) || (target == 2 && kind == 2) || (target == 3 && kind == 3);
+    let fits_opt = target >= 4 && (kind == 4 || (target == 4 && kind == 0) || (target == 5 && kind == 1) || (target == 6 && kind == 2));
+    if fits_plain {
+        check!(got == Ok(Value::Int(1)) && calls == vec![shown_plain.to_string()], "a fitting value reaches the function unchanged");
+    } else if fits_opt {
+        check!(got == Ok(Value::Int(1)) && calls == vec![shown_opt.to_string()], "a fitting value (or null) reaches an Option parameter as Some(value) (or None)");
+    } else {
+        check!(got.is_err() && calls.is_empty(), "a value of the wrong kind is an execution error and the function is not invoked");
+    }
+}
+pub fn c07_extractor_eval() {
+    c20_extractor_eval()
+}
 pub fn c20_node() {
     node_replay()
 }
@@ -439,6 +582,9 @@ crate::harnesses! {
     #[kani::unwind(2)] c07_call: "off", "Program::compile + Value::resolve on a call node f(..)/t().f(..) with logging host functions", "0-3 arguments, with/without receiver, declared/undeclared, receiver ok/error";
     #[kani::unwind(2)] c11_chain: "off", "Context::default/new_inner_scope/add_variable_from_value/get_variable on 1-3 real scopes (native replay body for the MIR engine)", "every subset of {a,b,c} per level";
     #[kani::unwind(2)] c11_fold: "off", "Context::resolve on a hand-built Expr::Comprehension with logging host functions (native replay body for the MIR engine)", "0-3 elements, every failing point, every condition pattern";
+    #[kani::unwind(2)] c20_extractor_eval: "off", "size(..) / x.size() / max(..) over logging host functions through Program::compile + execute", "This with/without receiver, Arguments; failing argument index 0-2 or none";
+    #[kani::unwind(2)] c20_conversion: "off", "host function with one typed parameter (i64/u64/bool/f64/Option<..>) called with a value of each kind, through Program::compile + execute", "7 parameter types x 6 value kinds";
+    #[kani::unwind(2)] c07_extractor_eval: "off", "same body (C07)", "same";
     #[kani::unwind(2)] c20_node: "off", "same body (C20)", "17 operators x 5 operand-result kinds";
     #[kani::unwind(2)] c20_missing_argument: "off", "host functions with Expression / Identifier parameters called with too few arguments, through Program::compile + execute", "0-3 leading value parameters, 0-3 supplied arguments";
     #[kani::unwind(2)] c08_node: "off", "same body (C08 operators)", "17 operators x 5 operand-result kinds";
